@@ -204,6 +204,9 @@ func genC01(r *rand.Rand, run int, tier string) *vm.Plan {
 	if r.Intn(4) == 0 { // a deep chain forked at its tip: every sibling must still verify
 		h.deepFork(2+r.Intn(6), 2+r.Intn(2), r.Intn(2) == 0)
 	}
+	if r.Intn(12) == 0 { // a long chain (9-16 blocks): whatever is done per block must be done for every block
+		h.deepFork(8+r.Intn(7), 1, r.Intn(2) == 0)
+	}
 	if r.Intn(2) == 0 {
 		h.sealRandom()
 	}
@@ -235,6 +238,13 @@ func genC01(r *rand.Rand, run int, tier string) *vm.Plan {
 		}
 		t := h.receive(mb, false)
 		h.verifyTok(t, h.tokKey[-b])
+		if r.Intn(3) == 0 { // the verifier is asked again about the same token object (a retry, another request)
+			h.verifyTok(t, h.tokKey[-b])
+			if r.Intn(2) == 0 {
+				h.verifyTok(t, h.pick(h.issuers))
+				h.verifyTok(t, h.tokKey[-b])
+			}
+		}
 	}
 	return h.p
 }
